@@ -260,10 +260,50 @@ def ufuncs_case(case, res):
     res.sample({"variant": [cls, dt], "backend": be, "ufuncs": [f.__name__ for f in mine][:5]}, 1)
 
 
+def masked_forms(res, case, cls, dt):
+    """Signal data given as a masked array: the ufunc on the signal equals the ufunc on the masked array (values AND mask)."""
+    raw = make_data(cls, dt)
+    mask = (np.arange(raw.size).reshape(raw.shape) % 5 == 1)
+    zm = factory.make(cls, np.ma.MaskedArray(raw.copy(), mask=mask), rate_name="1MHz", start_name="iso", fc=400 * u.MHz, align="center",
+                      pol_type="circular", chan_bw=None if cls in ("BasebandSignal", "DualPolarizationSignal") else 2 * u.MHz)
+    if not isinstance(zm.data, np.ma.MaskedArray):
+        res.skipped["masked array not kept by the constructor"] += 1
+        return
+    md = zm.data
+    for nm, fs, fr in (("z + 1", lambda: zm + 1, lambda: md + 1), ("2 - z", lambda: 2 - zm, lambda: 2 - md),
+                       ("np.multiply(z, z)", lambda: np.multiply(zm, zm), lambda: np.multiply(md, md)),
+                       ("np.negative(z)", lambda: np.negative(zm), lambda: np.negative(md)),
+                       ("np.add(ndarray, z)", lambda: np.add(raw, zm), lambda: np.add(raw, md)),
+                       ("abs(z)", lambda: abs(zm), lambda: abs(md))):
+        try:
+            want = fr()
+        except Exception:
+            continue
+        ok_, wc = class_cast(type(zm), np.asarray(want))
+        if not ok_:
+            continue
+        try:
+            got = fs()
+        except Exception as e:
+            res.violation(f"masked data|{nm}|raised", f"{type(e).__name__}: {e}", case, {"op": nm})
+            continue
+        res.transitions += 1
+        gd = got.data if isinstance(got, pb.Signal) else got
+        if isinstance(want, np.ma.MaskedArray):
+            if not isinstance(gd, np.ma.MaskedArray) or not np.array_equal(np.ma.getmaskarray(gd), np.ma.getmaskarray(want)) or \
+                    not np.array_equal(np.asarray(gd.filled(0)), np.asarray(want.filled(0)).astype(gd.dtype)):
+                res.violation(f"masked data|{nm}|mask or values", f"{nm} on a signal holding a masked array: result data is "
+                              f"{type(gd).__name__}, the same ufunc on the masked array keeps the mask", case, {"op": nm})
+                continue
+        res.hits["masked-array data"] += 1
+
+
 def forms_case(case, res):
     cls, dt = VARIANTS[case["variant"]]
     be = case["backend"]
     kind = np.dtype(dt).kind
+    if be == "numpy" and kind in "fc":
+        masked_forms(res, case, cls, dt)
     # ---- operators (dunder forms go through the mixin)
     z = make_sig(cls, dt, be)
     b = make_sig(cls, dt, be, True)
@@ -582,7 +622,7 @@ def main(argv=None):
         PID, gen_cases=gen_cases, check_case=check_case, describe=describe,
         required_hits=["reference raises: signal call raises too", "result dtype not admitted -> ValueError", "two outputs",
                        "python float/complex scalar with integer or bool signal", "signals of two classes", "operators",
-                       "out= returns the same object", "two-output out= tuple", "in-place chains", "zero-length out= target", "in-place with scaled dimensionless Quantity", "result modified in place, operand unchanged", "ufunc keyword arguments", "refused with TypeError",
+                       "out= returns the same object", "two-output out= tuple", "in-place chains", "zero-length out= target", "masked-array data", "in-place with scaled dimensionless Quantity", "result modified in place, operand unchanged", "ufunc keyword arguments", "refused with TypeError",
                        "array conversion", "conversion, in-place write, conversion"],
         assumptions=["NumPy dispatches a binary ufunc to a strict-subclass operand first, so for (superclass signal, subclass signal) the "
                      "type of the result is left open", "for Dask data an error may surface at compute time"],
